@@ -364,6 +364,11 @@ where
                             }
                             tokens.push(t.clone());
                         }
+                        if depth != 0 {
+                            return Err(crate::error::parse_invalid_token(
+                                "NUD expected right parenthesis",
+                            ));
+                        }
                         parse(&tokens)
                     }
                     DelSym::Comma | DelSym::RightParenthesis => Err(
